@@ -590,6 +590,7 @@ ErrorCode Library::write_oas(const char* filename, double circle_tolerance,
     Map<uint64_t> cell_name_map = {};
     Map<uint64_t> cell_offset_map = {};
     Map<uint64_t> text_string_map = {};
+    Array<Polygon*> temporary_polygons = {};
     bool write_cell_offsets = state.config_flags & OASIS_CONFIG_PROPERTY_CELL_OFFSET;
 
     // Build cell name map. Other maps are built as the file is written.
@@ -641,9 +642,10 @@ ErrorCode Library::write_oas(const char* filename, double circle_tolerance,
                     Polygon* poly = *poly_p++;
                     err = poly->to_oas(out, state);
                     if (err != ErrorCode::NoError) error_code = err;
-                    poly->clear();
-                    free_allocation(poly);
                 }
+                // Property strings of these polygons may be referenced from
+                // state.property_value_array until the PROPSTRING table is written
+                temporary_polygons.extend(array);
                 array.clear();
             }
         }
@@ -663,9 +665,10 @@ ErrorCode Library::write_oas(const char* filename, double circle_tolerance,
                     Polygon* poly = *poly_p++;
                     err = poly->to_oas(out, state);
                     if (err != ErrorCode::NoError) error_code = err;
-                    poly->clear();
-                    free_allocation(poly);
                 }
+                // Property strings of these polygons may be referenced from
+                // state.property_value_array until the PROPSTRING table is written
+                temporary_polygons.extend(array);
                 array.clear();
             }
         }
@@ -864,6 +867,12 @@ ErrorCode Library::write_oas(const char* filename, double circle_tolerance,
         oasis_write_unsigned_integer(out, value->count);
         oasis_write(value->bytes, 1, value->count, out);
     }
+
+    for (uint64_t i = 0; i < temporary_polygons.count; i++) {
+        temporary_polygons[i]->clear();
+        free_allocation(temporary_polygons[i]);
+    }
+    temporary_polygons.clear();
 
     oasis_putc((int)OasisRecord::END, out);
 
